@@ -255,7 +255,8 @@ def match_link_dest(string, offset):
             if c == '\\' and not escaped:
                 escaped = True
             elif c in whitespace:
-                return offset, i, string[offset:i]
+                # the destination ends here: its parentheses have to be balanced
+                return (offset, i, string[offset:i]) if count == 1 else None
             elif not escaped:
                 if c == '(':
                     count += 1
